@@ -44,6 +44,12 @@ PROP = {
             "nil no invocation may start); lock order: Run's RunHandlers or a later RunHandlers call held inside a slow (gated) Subscribe or "
             "at its own log line right after taking handlersLock while 2-3 Close callers arrive - every Close/RunHandlers/Run must return "
             "(bounded controller calls; 8 s bound); "
+            "a handler whose first Subscribe call(s) failed, started by a later RunHandlers, with its handleClose parked so that its loop ends "
+            "last and its subscriber hands a message over when finally closed (run in a child process with the events streamed to a file: an "
+            "unrecovered panic in a router goroutine becomes the event `crash`); "
+            "a handler whose first Subscribe call(s) failed, started by a later RunHandlers, with its handleClose parked so that its loop ends "
+            "last and its subscriber hands a message over when finally closed (run in a child process with the events streamed to a file: an "
+            "unrecovered panic in a router goroutine becomes the event `crash`); "
             "seeded random programs (1-3 handlers, outcomes ok/out/err/pubfail/panic, yields). Every trace goes through the C06 monitor "
             "(clauses of the statement); traces marked for conformance must be traces of the Lean model RouterLife (subset construction). "
             "Non-trivial = a trace with at least one emitted message and one Close call.",
